@@ -16,7 +16,8 @@ type batchGen struct {
 	PPreErr    int // per-mille: an item is a pre-made error Result
 	Waits      bool
 	Fb         bool
-	Gated      int // 0 never, 1 always, 2 either
+	Rerun      bool // sometimes reconfigure the same node object and run it a second time
+	Gated      int  // 0 never, 1 always, 2 either
 	PrepForms  []int
 	PPrepErr   int
 	PPostErr   int
@@ -93,6 +94,18 @@ func (g batchGen) gen(rt *rapid.T) BatchSc {
 			b.Sched = append(b.Sched, rapid.IntRange(0, 15).Draw(rt, "sched"))
 		}
 	}
+	if g.Rerun && uniform(rt, 3, "rerun") == 0 {
+		g2 := g
+		g2.Rerun = false
+		g2.PrepForms = []int{b.PrepForm}
+		s := g2.gen(rt)
+		s.N = b.N
+		for len(s.Items) < s.n() {
+			s.Items = append(s.Items, ItemScript{Exec: []Outcome{{}}})
+		}
+		s.PrepErr, s.PostErr = 0, 0
+		b.Second = &s
+	}
 	return b
 }
 
@@ -101,6 +114,34 @@ func runBatchCase(t *testing.T, sc *BatchSc, qp func(x *batchExec) string) (x *b
 	fail = Bubble(t, func() {
 		x = newBatchExec(sc)
 		x.qp = qp
+		br = x.run()
+	})
+	return
+}
+
+// runBatchTwice runs the scenario, then reconfigures the same node object to sc.Second and
+// runs it again. It returns the observations of the second run (and the effective scenario).
+func runBatchTwice(t *testing.T, sc *BatchSc) (x *batchExec, eff *BatchSc, br batchRun, fail string) {
+	second := *sc.Second
+	second.PrepForm, second.HasFb, second.ExecAny, second.ErrBoth, second.NoPost, second.Gated = sc.PrepForm, sc.HasFb, sc.ExecAny, sc.ErrBoth, sc.NoPost, sc.Gated
+	second.Second = nil
+	if second.ExecAny || !(second.PrepForm == PFResults || second.PrepForm == PFResultsCN) {
+		// pre-made error items can only be told apart by a Result-style exec function
+		items := append([]ItemScript(nil), second.Items...)
+		for i := range items {
+			items[i].PreErr = false
+		}
+		second.Items = items
+	}
+	eff = &second
+	fail = Bubble(t, func() {
+		x = newBatchExec(sc)
+		first := x.run()
+		if first.Panic != "" {
+			br = first
+			return
+		}
+		x.reconfigure(eff)
 		br = x.run()
 	})
 	return
